@@ -5,7 +5,7 @@
 cd /verif
 WT=/tmp/sweep-wt
 names="$@"
-[ -z "$names" ] && names=$(ls seeded | grep -v RESULTS)
+[ -z "$names" ] && names=$(ls seeded | grep "^C[0-9][0-9]-")
 for name in $names; do
   id=${name%%-*}
   git -C /repo worktree remove --force $WT 2>/dev/null
